@@ -277,6 +277,43 @@ def construct_with_dest(case, dest_obj):
     raise ValueError(fam)
 
 
+SCAN_ENDS = ("close", "throw", "drop", "complete", "close-then-clear")
+SCAN_ADDRESSES = ([0, 3], 2, [[5, 9]], [63, 63])
+
+
+def abandon_scan(dmap, spec):
+    """A bus scan (autodiscover) was started on this mapper earlier and given up - nothing on the bus answered, the
+    driver's run_sequence was cancelled (generator closed), the driver raised into it, or the generator was just
+    dropped; "complete": it ran to its end with no answers.  Either way the mapper is the application's to fill by
+    hand afterwards (expectation: add_type()/get_type() are documented without reference to any scan)."""
+    steps, end, addresses = spec
+    if isinstance(addresses, list) and len(addresses) == 2:
+        addresses = tuple(addresses)
+    elif isinstance(addresses, list):
+        addresses = list(addresses[0])
+    g = dmap.autodiscover(addresses) if steps % 2 else dmap.autodiscover(addresses=addresses)
+    try:
+        next(g)
+        if end == "complete":
+            for _ in range(1000):
+                g.send(None)
+            raise AssertionError("autodiscover with no answers does not end")
+        for _ in range(steps - 1):
+            g.send(None)
+    except StopIteration:
+        return
+    if end in ("close", "close-then-clear"):
+        g.close()
+        if end == "close-then-clear":
+            dmap.clear()
+    elif end == "throw":
+        try:
+            g.throw(OSError("bus gone"))
+        except (OSError, StopIteration):
+            pass
+    del g
+
+
 EVENT_FIELDS = ("short_address", "instance_number", "instance_group", "device_group", "instance_type", "event_data")
 
 
@@ -377,6 +414,8 @@ def run_case(case):
                     if (s_, i_) != (sa, inum):
                         preset[(s_, i_)] = (case["maptype"] + 1 + k_) % 32
                 dmap = DeviceInstanceTypeMapper(initial=preset)
+            if case.get("map_scan"):
+                abandon_scan(dmap, case["map_scan"])
             # a bus-wide map is kept up to date over time: the pair may have been recorded with another type before
             if not case.get("map_preset"):
                 for prev in case.get("map_history", []):
@@ -842,6 +881,16 @@ def _shard(arg):
                 res.label("legal:numbers-as-" + form)
                 for sig, msg in run_case(c2):
                     res.violation(sig + ":" + form, c2, msg)
+            if "maptype" in case and n % 4 == 1:
+                spec = [1 + (n // 4) % 4, SCAN_ENDS[(n // 4 + seed) % len(SCAN_ENDS)], SCAN_ADDRESSES[(n // 8) % len(SCAN_ADDRESSES)]]
+                if case.get("map_preset") and spec[1] == "close-then-clear":
+                    spec[1] = "close"           # clear() would (rightly) drop the preset entries too
+                c2 = dict({k: v for k, v in case.items() if k != "sibling"}, map_scan=spec)
+                res.count()
+                res.nontrivial()
+                res.label("legal:map-after-scan-" + spec[1])
+                for sig, msg in run_case(c2):
+                    res.violation(sig + ":after-abandoned-scan", c2, msg)
         res.count(n)
         res.nontrivial(n=n)
         res.label("legal:" + fam, n)
